@@ -83,7 +83,7 @@ inline std::map<std::string, std::string> fs_replay(std::map<std::string, std::s
         {
         case fs_open: if (op.trunc || !state.count(op.path)) state[op.path] = ""; break;
         case fs_write: state[op.path] += partial ? op.data.substr(0, bytes) : op.data; break;
-        case fs_rename: state[op.path2] = state[op.path]; state.erase(op.path); break;
+        case fs_rename: if (op.path != op.path2) { state[op.path2] = state[op.path]; state.erase(op.path); } break;   // renaming a file onto itself does nothing
         case fs_unlink: state.erase(op.path); break;
         case fs_truncate: state[op.path].resize(op.length); break;
         default: break;
